@@ -266,6 +266,17 @@ def walk_exits(an, rep, rule, key, w, stop_conditions, what):
             rep.bad(rule, "%s:exit" % key, w, "the chain walk is left unconditionally from bb%d (not under a single branch): symbols further down the chain are never compared" % frm)
             continue
         d = norm(an.switches[sw])
+        # the discriminant of a helper's `if c {Some(..)} else {None}` is `if c {1} else {0}`: the branch is a branch on c
+        for _ in range(4):
+            if d[0] == "ite" and d[2][0] == "c" and d[3][0] == "c" and d[2] != d[3]:
+                if val == str(d[2][1]):
+                    d, val = d[1], "otherwise"
+                elif val == str(d[3][1]) or val == "otherwise":
+                    d, val = d[1], "0"
+                else:
+                    break
+            else:
+                break
         ds = show(d)[:200]
         if d[0] == "discr" and d[1][0] == "call" and d[1][1] == "ops::Try::branch":
             ok = val == "1"   # ControlFlow::Break = the residual (error) arm
